@@ -1072,30 +1072,47 @@ _ULIM = {}
 MEMTYPES = RM.MEMORY_TYPES
 
 
-def _limit_spec(w, signed, mask, tmask, lo, hi, scaled=False):
-    return {"width": w, "signed": bool(signed), "mask": bool(mask), "tmask": bool(tmask), "min": lo, "max": hi,
+def _limit_spec(w, signed, mask, tmask, lo, hi, scaled=False, offset=None):
+    """offset given: a TemperatureValue whose class body sets the class attribute `offset` (a vendor's temperature
+    stored with another offset than the 60 of the DiiA banks), otherwise a NumericValue / ScaledNumericValue."""
+    spec = {"width": w, "signed": bool(signed), "mask": bool(mask), "tmask": bool(tmask), "min": lo, "max": hi,
             "scaled": bool(scaled)}
+    if offset is not None:
+        spec["offset"] = int(offset)
+    return spec
+
+
+TEMP_OFFSETS = (0, 40, 60, 273, -20, 1000, 59, 61)
 
 
 def _limit_row(spec):
     w = spec["width"]
-    name = "Lim%s%s%s%s%dB" % ("Scaled" if spec["scaled"] else "", "S" if spec["signed"] else "U",
+    off = spec.get("offset")
+    name = "Lim%s%s%s%s%dB" % ("Scaled" if spec["scaled"] else "" if off is None else ("TempOff%d" % off).replace("-", "m"),
+                               "S" if spec["signed"] else "U",
                                "M" if spec["mask"] else "", "T" if spec["tmask"] else "", w)
-    return dict(key="USERLIM." + name, cls=name, module=__name__, bankobj="USERLIM", bank=140, first=0x03,
-                last=0x03 + w - 1, width=w, memtype=("NVM_RO",) * w, kind="scaled" if spec["scaled"] else "uint",
-                signed=spec["signed"], mask=spec["mask"], tmask=spec["tmask"], min=spec["min"], max=spec["max"],
-                exp10=None, trust="independent", pinned_fields=())
+    row = dict(key="USERLIM." + name, cls=name, module=__name__, bankobj="USERLIM", bank=140, first=0x03,
+               last=0x03 + w - 1, width=w, memtype=("NVM_RO",) * w,
+               kind="scaled" if spec["scaled"] else "uint" if off is None else "temp",
+               signed=spec["signed"], mask=spec["mask"], tmask=spec["tmask"], min=spec["min"], max=spec["max"],
+               exp10=None, trust="independent", pinned_fields=())
+    if off is not None:
+        row["offset"] = off
+    return row
 
 
 def _limit_class(spec):
     """The value class a program gets for this declaration (declared once per process), and its table row."""
-    key = (spec["width"], spec["signed"], spec["mask"], spec["tmask"], spec["min"], spec["max"], spec["scaled"])
+    key = (spec["width"], spec["signed"], spec["mask"], spec["tmask"], spec["min"], spec["max"], spec["scaled"],
+           spec.get("offset"))
     if key in _ULIM:
         return _ULIM[key]
     loc = _lib()["location"]
     row = _limit_row(spec)
     if spec["scaled"]:
         from dali.memory.energy import ScaledNumericValue as base
+    elif spec.get("offset") is not None:
+        base = loc.TemperatureValue
     else:
         base = loc.NumericValue
     bank = loc.MemoryBank(row["bank"], 0x20, has_latch=True)
@@ -1110,13 +1127,18 @@ def _limit_class(spec):
         attrs["min_value"] = spec["min"]
     if spec["max"] is not None:
         attrs["max_value"] = spec["max"]
+    if spec.get("offset") is not None:
+        attrs["unit"] = "K" if spec["offset"] == 273 else "°C"
+        attrs["offset"] = spec["offset"]
     _ULIM[key] = (type(row["cls"], (base,), attrs), row)
     return _ULIM[key]
 
 
 def _limit_how(spec):
+    off = spec.get("offset")
     return ("a %d-byte %s declared by the program with signed=%s, mask_supported=%s, tmask_supported=%s, min_value=%r, "
-            "max_value=%r" % (spec["width"], "ScaledNumericValue" if spec["scaled"] else "NumericValue", spec["signed"],
+            "max_value=%r" % (spec["width"], "ScaledNumericValue" if spec["scaled"] else "NumericValue" if off is None
+                              else "TemperatureValue (class attribute offset=%d)" % off, spec["signed"],
                               spec["mask"], spec["tmask"], spec["min"], spec["max"]))
 
 
@@ -1131,6 +1153,8 @@ def _check_userlim(spec, raw, forms=FORMS):
         what = sig.split(":")[1]
         if what in ("flag", "decode-mismatch") and (spec["min"] is not None or spec["max"] is not None):
             what = "range-limits"
+        elif what == "decode-mismatch" and spec.get("offset") is not None:
+            what = "own-offset"
         out.append(("C11:user-declared-value:%s:%s" % (kind, what), "%s: %s" % (_limit_how(spec), msg)))
     return out
 
@@ -1144,6 +1168,14 @@ def limit_specs(w, scaled=False):
             for mask, tmask in _FLAGCOMBOS:
                 out.append(_limit_spec(w, signed, mask, tmask, lo, hi, scaled))
     return out
+
+
+def temp_specs(w):
+    """Temperatures a program declares with an offset of its own: every flag combination, without limits and with the
+    limit the shipped temperatures have (largest stored number below the flag patterns)."""
+    top = (1 << (8 * w)) - 1
+    return [_limit_spec(w, False, mask, tmask, None, hi, False, off)
+            for off in TEMP_OFFSETS for mask, tmask in _FLAGCOMBOS for hi in (None, top - 2)]
 
 
 def _limit_raws(row):
@@ -2250,7 +2282,7 @@ def _shard(arg):
     elif kind == "userlim":       # (e) declared range limits: every declaration of one width x boundary byte strings
         _, w, scaled, seed, n = arg
         rot = seed + w
-        for spec in limit_specs(w, scaled):
+        for spec in (temp_specs(w) if scaled == "temp" else limit_specs(w, scaled)):
             try:
                 row = _limit_class(spec)[1]
             except Exception:  # noqa: reported by _check_userlim
@@ -2267,14 +2299,18 @@ def _shard(arg):
             res.hist["declared-limits:%s%s" % ("none" if spec["min"] is None and spec["max"] is None else
                                                  "zero" if 0 in (spec["min"], spec["max"]) else "non-zero",
                                                  "-signed" if spec["signed"] else "")] += 1
-        res.label("user-declared:%s-%dB" % ("scaled" if scaled else "number", w))
+        res.label("user-declared:%s-%dB" % ("temperature-own-offset" if scaled == "temp" else "scaled" if scaled else "number", w))
         if n:
             from harness.hyp import search
             search(userlim_strategy(), run_case, res, n, seed, ID,
                    nontrivial=lambda c: _nontrivial(_limit_row(c["spec"]), bytes(c["raw"])),
                    classify=lambda c: [_refclass(RM.decode_tagged(_limit_row(c["spec"]), c["raw"]))])
-        res.sample({"op": "userlim", "spec": _limit_spec(w, not scaled, True, True, 0, None, scaled),
-                    "raw": [0xFF] * w}, cls="userlim")
+        if scaled == "temp":
+            res.sample({"op": "userlim", "spec": _limit_spec(w, False, False, True, None, None, False, 40),
+                        "raw": [0x5A] * w}, cls="userlim")
+        else:
+            res.sample({"op": "userlim", "spec": _limit_spec(w, not scaled, True, True, 0, None, scaled),
+                        "raw": [0xFF] * w}, cls="userlim")
 
     elif kind == "declrules":     # (f) what is accepted / refused when a value is declared
         _, seed, n = arg
@@ -2408,6 +2444,8 @@ def run(ctx):
         heavy.append(("userlim", w, False, seed * 1000 + 950 + w, (400 if q else 6000) if w == 2 else 0))
     for w in (2, 3, 5):
         light.append(("userlim", w, True, seed * 1000 + 960 + w, 0))
+    for w in (1, 2):
+        light.append(("userlim", w, "temp", seed * 1000 + 980 + w, 0))
     heavy.append(("declrules", seed * 1000 + 970, 400 if q else 8000))
     targets = list(keys) + alias_user_specs()
     for i in range(0, len(targets), 30):
